@@ -76,7 +76,7 @@ CHECKS = {
          "gen/meta.py applies nine source-level transformations (add filter, deeper recursion, make optional, parameter<->filter, = <-> one_of, filter/negation partition, renaming, sibling property / edge reordering) to the semantic universe; "
          "TLC evaluates the predicted bag relation on Sem's rows (validating the specification against spec.md's equivalences) and on the rows the real engine returned.",
          "Side conditions (outside folds / optional scopes) are part of the transformation; cases the frontend rejects or with > 40 rows are skipped and counted."),
- "C11": (MC, "6/C11", "TLC judge (JudgeIR): the eight structural clauses evaluated on the IR exported from every compiled query, plus agreement with the pre-order numbering of the source AST",
+ "C11": (MC, "6/C11", "TLC judge (JudgeIR): the eight structural clauses evaluated on the IR exported from every compiled query, plus agreement with the pre-order numbering of the source AST, with Query!ImpliedVarTypes, and (as drift only) with spec/Lower.tla, the full source-to-IR function",
          "For every query the real frontend accepts, TLC evaluates on the exported IR: edge i -> vertex i+1; every vid/eid in exactly one component, numbered 1..n; folds precede their contents; edges go from lower to higher vids; "
          "tags (and fold-count tags) are defined before their uses; each fold's imported_tags equal, as sets, the tags of its enclosing component used anywhere below it; every variable use carries a type that the query-level variable type is a subtype of; "
          "vertex k is the k-th scope of the source query in pre-order with the expected type, edge name, fold / optional / recursion flags.",
